@@ -15,7 +15,9 @@ seen = set()
 os.makedirs("out", exist_ok=True)
 log = open("out/setup.log", "w")
 ok = True
+from props import CLAIMED
 for pid, s in sorted(PROPS.items()):
+    if pid not in CLAIMED: continue
     k = (s["engine"], bool(s.get("race")))
     if k in seen: continue
     seen.add(k)
